@@ -9,6 +9,7 @@ import (
 	"verifsim/mgmtsim"
 	"verifsim/objsim"
 	"verifsim/schedsim"
+	"verifsim/svsim"
 	"verifsim/dvsim"
 	"verifsim/enginesim"
 	"verifsim/facesim"
@@ -44,6 +45,8 @@ func TestSim(t *testing.T) {
 		kit.Drive(t, objsim.Engine{}, a)
 	case "dvsim":
 		kit.Drive(t, dvsim.Engine{}, a)
+	case "svsim":
+		kit.Drive(t, svsim.Engine{}, a)
 	case "fwsim":
 		kit.Drive(t, fwsim.Engine{}, a)
 	case "tablesim":
